@@ -546,6 +546,110 @@ def aesctr_drbg_chunking(chk):
     chk.floor('aesctr_drbg cases', n, 13)
 
 
+def shake_rules(chk):
+    """SHAKE (FIPS 202): rate = 200 - 2 * (security level in bytes) = 168 / 136; padding is the suffix 1111 followed by pad10*1, i.e.
+    byte 0x1F right after the message, zeros, and bit 7 of the last byte of the block set (0x9F when both fall on the same byte);
+    the 24 round constants are generated by the degree-8 LFSR of section 3.2.5.  Decided by partial evaluation of br_shake_init /
+    br_shake_flip (rate and fill level pinned, byte image of the block buffer when it is XORed into the state) and by TAB."""
+    from .. import oblig, fold
+    R = 'shake-padding'
+    src = 'src/kdf/shake.c'
+    U = oblig.funit(src)
+    for fn in ('br_shake_flip', 'br_shake_init'):
+        if fn not in U.funcs:
+            raise AnalysisBroken('%s vanished' % fn)
+    L = irf.Layouts(U.unit)
+    od, orr, ob, oa = (L.field('br_shake_context', f) for f in ('dptr', 'rate', 'dbuf', 'A'))
+    if None in (od, orr, ob, oa):
+        raise AnalysisBroken('br_shake_context layout changed')
+    # round constants
+    def rc_bit(t):
+        r = 1
+        for _ in range(t % 255):
+            r <<= 1
+            if r & 0x100:
+                r ^= 0x171
+        return r & 1
+    ref = []
+    for ir in range(24):
+        v = 0
+        for j in range(7):
+            if rc_bit(j + 7 * ir):
+                v |= 1 << ((1 << j) - 1)
+        ref.append(v)
+    cmp_table(chk, 'hash-constants', U.unit, 'RC', ref, 'Keccak-f[1600] round constants (LFSR of FIPS 202 3.2.5)', src)
+    # init
+    F = U.func('br_shake_init')
+    n = 0
+    for sec, rate in ((128, 168), (256, 136)):
+        hy = [dict(kind='assume', n=F.f['params'][1]['n'], ty=F.f['params'][1]['ty'], pred='eq', value=sec, param=True)]
+        Fo = U.optimise('br_shake_init', hy, (), 'default<O1>')
+        st = {}
+        for i in fold._reach_insts(Fo):
+            if i['op'] == 'store':
+                b, o = Fo.addr_of(i['ops'][1])
+                if b == {'k': 'a', 'v': 0} and o in (od[0], orr[0]):
+                    st[o] = i['ops'][0].get('v') if i['ops'][0]['k'] == 'c' else '?'
+        n += 1
+        inst = 'br_shake_init: security level %d => rate %d bytes, empty block' % (sec, rate)
+        if st == {od[0]: 0, orr[0]: rate}:
+            chk.ok(R, inst, src)
+        else:
+            chk.violation(R, inst, src, 'rate := %s, dptr := %s' % (st.get(orr[0]), st.get(od[0])), key='%s init %d' % (R, sec))
+    # flip
+    fn = 'br_shake_flip'
+    F = U.func(fn)
+    ld = U.field_loads(fn, 0, od[0])
+    lr = U.field_loads(fn, 0, orr[0])
+    if not ld or not lr:
+        raise AnalysisBroken('%s: loads of dptr / rate not found' % fn)
+    first = min(ld, key=lambda i: F.order[i['id']])
+    for rate, dptr in ((168, 0), (168, 5), (168, 166), (168, 167), (136, 0), (136, 77), (136, 134), (136, 135)):
+        hy = [dict(kind='assume', n=first['n'], ty=first['ty'], pred='eq', value=dptr)] + [dict(kind='pin', n=x['n'], value=rate) for x in lr]
+        Fo = U.optimise(fn, hy, ('xor_block',))
+        reach = Fo.reachable()
+        blocks = [b for b in Fo.blocks if b['id'] in reach]
+        inst = '%s: rate %d, %d message bytes in the block => 0x1F, zeros, last byte |= 0x80, whole block absorbed' % (fn, rate, dptr)
+        n += 1
+        if len(blocks) != 1:
+            chk.violation(R, inst, src, 'the function does not reduce to straight-line code under the hypothesis (%d blocks)' % len(blocks), key='%s flip %d %d' % (R, rate, dptr))
+            continue
+        img = ['M'] * dptr + ['?'] * (rate - dptr)
+        snap = None
+        fill = None
+        for i in blocks[0]['insts']:
+            if i['op'] == 'store':
+                b, o = Fo.addr_of(i['ops'][1])
+                if b == {'k': 'a', 'v': 0} and o is not None:
+                    if ob[0] <= o < ob[0] + rate and i.get('size', 1) == 1:
+                        img[o - ob[0]] = (i['ops'][0]['v'] & 0xFF) if i['ops'][0]['k'] == 'c' else '?'
+                    elif o == od[0]:
+                        fill = i['ops'][0].get('v') if i['ops'][0]['k'] == 'c' else '?'
+            elif i['op'] == 'call':
+                cal = i.get('callee') or ''
+                if cal.startswith('llvm.memset'):
+                    b, o = Fo.addr_of(i['ops'][0])
+                    if b == {'k': 'a', 'v': 0} and o is not None and i['ops'][1]['k'] == 'c' and i['ops'][2]['k'] == 'c':
+                        for k in range(i['ops'][2]['v']):
+                            if 0 <= o - ob[0] + k < rate:
+                                img[o - ob[0] + k] = i['ops'][1]['v'] & 0xFF
+                elif cal == 'xor_block':
+                    ok_args = Fo.addr_of(i['ops'][0]) == ({'k': 'a', 'v': 0}, oa[0]) and Fo.addr_of(i['ops'][1]) == ({'k': 'a', 'v': 0}, ob[0]) \
+                        and i['ops'][2] .get('v') == rate
+                    snap = (list(img), ok_args)
+        want = ['M'] * dptr + [0] * (rate - dptr)
+        want[dptr] ^= 0x1F
+        want[rate - 1] ^= 0x80
+        if snap and snap[0] == want and snap[1] and fill == rate:
+            chk.ok(R, inst, src)
+        else:
+            det = 'no xor_block call' if not snap else 'xor_block arguments are not (A, dbuf, rate)' if not snap[1] else \
+                'dptr := %s instead of rate' % fill if snap[0] == want else \
+                'byte %d of the absorbed block is %s, FIPS 202 gives %s' % next((k, snap[0][k], want[k]) for k in range(rate) if snap[0][k] != want[k])
+            chk.violation(R, inst, src, det, key='%s flip %d %d' % (R, rate, dptr))
+    chk.floor('shake cases', n, 10)
+
+
 def run(tier):
     chk = report.Check('C13', tier,
                        'Constant tables and class descriptors of the hash functions compared with values generated from the standards '
@@ -691,6 +795,7 @@ def run(tier):
     md_update(chk)
     drbg_rules(chk)
     aesctr_drbg_chunking(chk)
+    shake_rules(chk)
     chk.floor('tables', sum(1 for o in chk.obls if o['rule'] == 'hash-constants'), 15)
     from .. import lints
     lints.length_is_boolean(chk, ['src/hash/', 'src/mac/', 'src/kdf/', 'src/rand/'])
